@@ -552,6 +552,22 @@ example : Inv { bank := exBank, pos := [], paid := 0, funded := 0 } :=
 
 /-! ### who can move vault funds, and where to (tables regenerated from the source on every run) -/
 
+/-- **closing_pays_out_first**: a position can be closed (complete withdrawal, complete repayment, balance closure: all three go
+    through `Balance::close(check_emissions = true)`) only while LESS than one whole emission token is unclaimed — strictly: with
+    exactly one token outstanding the closure is refused, so no reward that could be paid is ever dropped by closing. -/
+theorem closing_pays_out_first {bal bal' : Balance} (h : closeBalance bal true = .ok bal') : bal.emis < ONE ∧ bal' = emptyDeactivated := by
+  unfold closeBalance at h
+  split at h
+  · cases h
+  · rename_i hc
+    injection h with h
+    simp only [Bool.true_and, Bool.not_eq_true', decide_eq_false_iff_not, not_not] at hc
+    exact ⟨hc, h.symm⟩
+
+/-- (the boundary itself) exactly one token outstanding is refused, one ulp less is accepted -/
+example : closeBalance { active := true, tag := 0, a := 0, l := 0, emis := ONE, lastUpdate := 0 } true = .error (.err E.CannotCloseOutstandingEmissions) := by decide
+example : (closeBalance { active := true, tag := 0, a := 0, l := 0, emis := ONE - 1, lastUpdate := 0 } true).isOk = true := by decide
+
 section tables
 open Mfi.Gen.Skel Mfi.Gen.Acc
 
